@@ -5,7 +5,6 @@ CONSTANTS
   ModelVersions <- MVQuick
   Underscores = {TRUE, FALSE}
   ClassSet = {"empty", "single", "values", "all", "full"}
-INVARIANT TypeOK
 INVARIANT Identity
 INVARIANT NameOfCurrentModel
 INVARIANT AllNamesExist
